@@ -602,7 +602,7 @@ P = {
                  "C07_history_is_the_execution", "C07_readers_see_committed_state", "C07_real_time_order",
                  "C07_no_lost_update", "C07_seq_spec_total", "C07_repo_safe", "C07_repo_linearizable",
                  "C07_explored_schedule_is_model_execution", "C07_explored_schedule_same_history",
-                 "C07_explored_schedule_safe"],
+                 "C07_explored_schedule_safe", "C07_repo_explored_schedule_safe"],
     "streams": [STREAM, SCHED],
     "generators": [gen_skel],
     "custom": custom,
